@@ -61,6 +61,8 @@ structure Ctx where
   polls : Nat := 0
   stopAt : Nat := 0              -- 0 = the flag never reads true
   everyNode : Bool := false
+  /-- ghost (read by no code): the node count at the consultation that first read true -/
+  stoppedNodes : Option Nat := none
 
 def tblIdx (p : Player) (src dst : Sq) : Nat := p.idx * 4096 + src.val * 64 + dst.val
 
@@ -87,7 +89,9 @@ def newHistory : Array Int := Array.replicate 8192 0
 /-- the flag is consulted: true from the `stopAt`-th consultation on -/
 def poll (c : Ctx) : Ctx × Bool :=
   let n := c.polls + 1
-  ({ c with polls := n }, c.stopAt ≠ 0 && n ≥ c.stopAt)
+  let stop := c.stopAt ≠ 0 && n ≥ c.stopAt
+  ({ c with polls := n,
+            stoppedNodes := if stop && c.stoppedNodes.isNone then some c.nodes else c.stoppedNodes }, stop)
 
 /-- `TimeStrategy::should_stop` under `TimeControl::Infinite` (+ hook H1) -/
 def shouldStop (c : Ctx) : Ctx × Bool :=
@@ -190,6 +194,68 @@ structure NodeOut where
   pv : List Move
   ctx : Ctx
 
+/-- null-move pruning (`child` = the reduced zero-window search of the position after the null move):
+    `some out` = the node returns `out`; otherwise the move loop runs, with the context the child left -/
+def nullMovePhase (child : Ctx → NodeOut) (doNull : Bool) (beta : Int) (pv : List Move) (c : Ctx) :
+    Option NodeOut × Ctx :=
+  if doNull then
+    let ch := child c
+    match ch.res with
+    | .ok v =>
+      let ns := neg v
+      if ns ≥ beta then (some ⟨.ok ns, pv, ch.ctx⟩, ch.ctx) else (none, ch.ctx)
+    | r => (some ⟨r, pv, ch.ctx⟩, ch.ctx)
+  else (none, c)
+
+/-- principal-variation search of one child (`search α β depth pv ctx` = `negamax` on the position after
+    the move): the first move with the full window, later ones with a reduced zero window and a
+    full-window re-search when the probe lands inside `(alpha, beta)`; the re-search receives the
+    probe's PV buffer, as the Rust does -/
+def pvsChild (search : Int → Int → Nat → List Move → Ctx → NodeOut) (alpha beta : Int) (depth count : Nat)
+    (inCheck : Bool) (c : Ctx) : NodeOut :=
+  let full (c : Ctx) (nodePv : List Move) : NodeOut := search (neg beta) (neg alpha) (depth - 1) nodePv c
+  if count = 1 then full c []
+  else
+    let reduction :=
+      if depth ≥ Gen.p_lmr_depth && count ≥ Gen.p_lmr_move_threshold then
+        let r := lmrReduction depth count
+        let r := if inCheck then r - 1 else r
+        max 1 r
+      else 1
+    let zw := search (neg alpha - 1) (neg alpha) (depth - reduction) [] c
+    match zw.res with
+    | .ok v =>
+      let s := neg v
+      if s > alpha && s < beta then full zw.ctx zw.pv else zw
+    | _ => zw
+
+/-- the end of `negamax` after the move loop: mate / stalemate, killers + counter move + history on a
+    quiet beta cutoff, and the table entry -/
+def finishNode (g : Game) (depth plies : Nat) (inCheck : Bool) (bound : TT.Bound) (bestMove : Option Move)
+    (bestEval : Int) (count : Nat) (pv : List Move) (c : Ctx) : NodeOut :=
+  if count = 0 then ⟨.ok (if inCheck then matedIn plies else 0), pv, c⟩ else
+  let upd : Option Ctx :=
+    if bound = .lower then
+      match bestMove with
+      | none => none
+      | some mv =>
+        if !mv.isCapture then
+          match killersPush c.killers plies mv with
+          | none => none
+          | some ks =>
+            let counter := match lastMove g with
+              | some pm => c.counter.setIfInBounds (tblIdx g.player pm.src pm.dst) (some mv)
+              | none => c.counter
+            some { c with killers := ks, counter, history := historyAdd c.history g.player mv depth }
+        else some c
+    else some c
+  match upd with
+  | none => ⟨.panic "killers index", pv, c⟩
+  | some c =>
+    let data : TT.Data :=
+      { bound, eval := fromPosition bestEval plies, best := bestMove, age := c.tt.generation, depth }
+    ⟨.ok bestEval, pv, { c with tt := c.tt.insert g.zobrist data }⟩
+
 /-- `negamax` -/
 def negamax : Nat → Game → Int → Int → Nat → Nat → List Move → Ctx → NodeOut
   | 0, _, _, _, _, _, pv, c => ⟨.panic "out of fuel", pv, c⟩
@@ -241,22 +307,9 @@ def negamax : Nat → Game → Int → Int → Nat → Nat → List Move → Ctx
     -- null move pruning
     let doNull := prunable && depth ≥ Gen.p_null_move_pruning_depth_limit && ev ≥ beta
       && (match g.history.head? with | none => true | some h => h.mv.isSome)
-    let nullOut : Option NodeOut :=
-      if doNull then
-        let g' := Game.makeNull theCfg g
-        let child := negamax fuel g' (neg beta) (neg beta + 1)
-          (depth - 1 - Gen.p_null_move_pruning_depth_reduction) (plies + 1) [] c
-        match child.res with
-        | .ok v =>
-          let ns := neg v
-          if ns ≥ beta then some ⟨.ok ns, pv, child.ctx⟩ else some ⟨.ok (-40000), pv, child.ctx⟩   -- marker: continue
-        | r => some ⟨r, pv, child.ctx⟩
-      else none
-    let (earlyOut, c) : Option NodeOut × Ctx := match nullOut with
-      | none => (none, c)
-      | some o => match o.res with
-        | .ok v => if v = -40000 then (none, o.ctx) else (some o, o.ctx)
-        | _ => (some o, o.ctx)
+    let (earlyOut, c) := nullMovePhase
+      (fun c => negamax fuel (Game.makeNull theCfg g) (neg beta) (neg beta + 1)
+        (depth - 1 - Gen.p_null_move_pruning_depth_reduction) (plies + 1) [] c) doNull beta pv c
     match earlyOut with
     | some o => o
     | none =>
@@ -282,24 +335,8 @@ def negamax : Nat → Game → Int → Int → Nat → Nat → List Move → Ctx
           | none => (.panic "make_move", pv, c)
           | some g' =>
             let count := count + 1
-            -- returns (score, child pv, ctx)
-            let full (c : Ctx) (nodePv : List Move) : NodeOut :=
-              negamax fuel g' (neg beta) (neg alpha) (depth - 1) (plies + 1) nodePv c
-            let out : NodeOut :=
-              if count = 1 then full c []
-              else
-                let reduction :=
-                  if depth ≥ Gen.p_lmr_depth && count ≥ Gen.p_lmr_move_threshold then
-                    let r := lmrReduction depth count
-                    let r := if inCheck then r - 1 else r
-                    max 1 r
-                  else 1
-                let zw := negamax fuel g' (neg alpha - 1) (neg alpha) (depth - reduction) (plies + 1) [] c
-                match zw.res with
-                | .ok v =>
-                  let s := neg v
-                  if s > alpha && s < beta then full zw.ctx zw.pv else zw
-                | _ => zw
+            let out : NodeOut := pvsChild
+              (fun a b d nodePv c => negamax fuel g' a b d (plies + 1) nodePv c) alpha beta depth count inCheck c
             match out.res with
             | .ok v =>
               let score := neg v
@@ -317,29 +354,7 @@ def negamax : Nat → Game → Int → Int → Nat → Nat → List Move → Ctx
     | (.abort, pv, c) => ⟨.abort, pv, c⟩
     | (.panic w, pv, c) => ⟨.panic w, pv, c⟩
     | (.ok (bound, bestMove, bestEval, count), pv, c) =>
-      if count = 0 then ⟨.ok (if inCheck then matedIn plies else 0), pv, c⟩ else
-      -- killers / counter move / history on a quiet beta cutoff
-      let upd : Option Ctx :=
-        if bound = .lower then
-          match bestMove with
-          | none => none
-          | some mv =>
-            if !mv.isCapture then
-              match killersPush c.killers plies mv with
-              | none => none
-              | some ks =>
-                let counter := match lastMove g with
-                  | some pm => c.counter.setIfInBounds (tblIdx g.player pm.src pm.dst) (some mv)
-                  | none => c.counter
-                some { c with killers := ks, counter, history := historyAdd c.history g.player mv depth }
-            else some c
-        else some c
-      match upd with
-      | none => ⟨.panic "killers index", pv, c⟩
-      | some c =>
-        let data : TT.Data :=
-          { bound, eval := fromPosition bestEval plies, best := bestMove, age := c.tt.generation, depth }
-        ⟨.ok bestEval, pv, { c with tt := c.tt.insert g.zobrist data }⟩
+      finishNode g depth plies inCheck bound bestMove bestEval count pv c
 termination_by fuel _ _ _ _ _ _ _ => (fuel, 0)
 
 structure Window where
